@@ -21,10 +21,11 @@ RULE = ("definitions covering every template arm of the 15 non-deprecated derive
         "(extracted) runs on them — once with the default ::strum path and once with #[strum(crate = ..)]. Oracle: the same "
         "definitions are compiled (1) in a #![no_std] library against strum with default features off, (2) with strum reachable "
         "only as a renamed dependency behind a nested re-export and every enum carrying #[strum(crate = \"..\")], (3) inside "
-        "modules that declare `mod core {}`, `mod std {}` and `mod alloc {}`. A static finding is confirmed by a compile failure "
+        "modules that declare `mod core {}`, `mod std {}` and `mod alloc {}`, (4) with `crate = \"<one identifier>\"` naming a local "
+        "alias (`use renamed_strum as st_alias;`) or a local re-exporting module. A static finding is confirmed by a compile failure "
         "before it is reported; a compile failure is reported by itself. non-trivial = distinct (definition, derive) expansions "
         "audited + distinct (definition, configuration) compiled")
-ASSUMPTIONS = ["rustc's real name resolution is modelled only as far as Model/Paths.v goes; the three build configurations are the oracle",
+ASSUMPTIONS = ["rustc's real name resolution is modelled only as far as Model/Paths.v goes; the four build configurations are the oracle",
                "user-written tokens (field types, attribute arguments) are told apart by comparing with the paths of the derive input"]
 
 DERIVES15 = ["EnumString", "Display", "AsRefStr", "IntoStaticStr", "VariantNames", "VariantArray", "EnumIter", "EnumCount", "FromRepr",
@@ -114,8 +115,12 @@ def fix_sp(it, sp):
 
 def build_corpus(tier, rng):
     c = Corpus(ID)
+    nalias = [0]
     for fam, it, derives in defs_all():
-        for cfgp, tag in (("::strum", "default"), ("crate::reexport::inner", "crate")):
+        # `crate = ".."` also as a SINGLE identifier that is a local alias (`use renamed_strum as st_alias;`) or a local module
+        # re-exporting strum: such a path must be used as written (a leading `::` would make it an extern-crate name)
+        nalias[0] += 1
+        for cfgp, tag in (("::strum", "default"), ("crate::reexport::inner", "crate"), (("st_alias", "st_mod")[nalias[0] % 2], "alias")):
             it2 = fix_sp(it, "strum") if tag == "default" else with_crate(fix_sp(it, "renamed_strum"), cfgp)
             it2.dmetas = [DM("other", m.s) if m.kind == "other" else m for m in it2.dmetas]
             k = c.add_def(it2, family=fam, derives=derives, cfgpath=cfgp, tag=tag, base=it)
@@ -173,10 +178,12 @@ def build_lib(name, lib_src, dep_line, extra=""):
 
 def lib_source(defs, mode):
     """defs: [(k, item, derives)]; mode: nostd | renamed | shadow"""
-    sp = "renamed_strum" if mode == "renamed" else "strum"
+    sp = "renamed_strum" if mode in ("renamed", "alias") else "strum"
     lines = ["#![no_std]", "#![allow(dead_code, unused, non_camel_case_types, deprecated, non_snake_case)]", HELPERS]
     if mode == "renamed":
         lines.append("pub mod reexport { pub mod inner { pub use renamed_strum::*; } }")
+    if mode == "alias":
+        lines.append("use renamed_strum as st_alias;\nmod st_mod { pub use renamed_strum::*; }")
     ranges = []
     for (k, it, derives) in defs:
         src = render_item(it, ["%s::%s" % (sp, d) for d in derives] + ["Clone", "Debug", "PartialEq"],
@@ -224,11 +231,11 @@ def extra_checks(corpus, tier, model, impl):
     dep_renamed = 'renamed_strum = { package = "strum", path = "%s/strum", default-features = false, features = ["derive", "phf"] }' % R.REPO
     compile_bad = {}
     compiled = 0
-    for mode in ("nostd", "renamed", "shadow"):
-        defs = [(k, it, corpus.meta[k]["derives"]) for k, it in corpus.defs.items()
-                if (corpus.meta[k]["tag"] == "crate") == (mode == "renamed")]
+    for mode in ("nostd", "renamed", "shadow", "alias"):
+        want_tag = {"renamed": "crate", "alias": "alias"}.get(mode, "default")
+        defs = [(k, it, corpus.meta[k]["derives"]) for k, it in corpus.defs.items() if corpus.meta[k]["tag"] == want_tag]
         src, ranges = lib_source(defs, mode)
-        rc, msgs, err = build_lib("c19" + mode, src, dep_renamed if mode == "renamed" else dep_plain)
+        rc, msgs, err = build_lib("c19" + mode, src, dep_renamed if mode in ("renamed", "alias") else dep_plain)
         compiled += len(defs)
         R.log("cargo build c19%s: rc=%d, %d error diagnostics" % (mode, rc, len(msgs)))
         attributed = False
